@@ -10,3 +10,4 @@ func c03F6(l *core.Ledger)  {}
 func c04H3(l *core.Ledger)  {}
 func c06P4(l *core.Ledger)  {}
 func c06P6(l *core.Ledger)  {}
+func c15S1(l *core.Ledger)  {}
